@@ -140,6 +140,9 @@ structure Transition where
   obs : Observed
   pre : State
   post : State
+  /-- what the command's key function declares for this command vector: (read keys, write keys); `none` when the
+      harness did not report it or the key function refused the vector -/
+  kf : Option (List Bytes × List Bytes) := none
 
 def pTransition : P Transition := do
   expect "T"
@@ -165,7 +168,18 @@ def pTransition : P Transition := do
   let pre ← pState
   expect "E"
   let post ← pState
-  pure ⟨seq, { db := db, now := now, cfg := ⟨maxmem, pol⟩, conn := conn }, cmd, obs, pre, post⟩
+  let kf ← tryCatch (do
+      expect "KF"
+      let st ← tok
+      if st != "ok" then pure none else
+      expect "r"
+      let nr ← pNat
+      let rs ← rep nr pBytes
+      expect "w"
+      let nw ← pNat
+      let ws ← rep nw pBytes
+      pure (some (rs, ws))) (fun _ => pure none)
+  pure ⟨seq, { db := db, now := now, cfg := ⟨maxmem, pol⟩, conn := conn }, cmd, obs, pre, post, kf⟩
 
 def parseLine (line : String) : Except String Transition :=
   let toks := (line.splitOn " ").filter (· ≠ "")
